@@ -127,5 +127,9 @@ def concrete(fn, *args):
         return fn(*args)
     if is_tracing():
         with NoTracing():
-            return fn(*args)
-    return fn(*args)
+            r = fn(*args)
+            # the body builds fresh objects from its arguments, so a second call must agree: this exposes state the library
+            # keeps between calls (a cache keyed by value, a mutated module global) at the cost of one more concrete run
+            return r and fn(*args)
+    r = fn(*args)
+    return r and fn(*args)
